@@ -43,7 +43,6 @@
 EXTENDS Integers, Sequences, SequencesExt, TLC
 
 AR == INSTANCE Arith WITH MaxI <- 2147483647, TsDivIsFloor <- TRUE, op <- "PLUS", a <- 0, b <- 0
-MaxInt == 2147483647
 MinInt == -2147483647 - 1
 
 CONSTANT MaxDepth        \* deepest chain of calls followed (beyond: impl("depth"))
@@ -70,8 +69,7 @@ Stuck(st, why) == End(st, "stuck", why)
 Unsupported(st, what) == End(st, "unsupported", what)
 IsOk(r) == r.st.s.k = "ok"
 
-Env0 == [v |-> <<>>, d |-> 0]
-BindOne(env, n, v) == [env EXCEPT !.v = (n :> v) @@ @]
+\* environments: [v |-> variables (name -> value; `this` under "this"), d |-> call depth]
 Ix(n) == [i \in 1..n |-> i]
 
 \* parameters ps bound to values vs on top of the variables `base`
@@ -170,7 +168,6 @@ Equality(o, x, y, st) ==
 -----------------------------------------------------------------------------
 (* Built-in classes Process, Str, Vec (spec.md 5.10 - 5.12, 10) *)
 VecOf(st, v) == st.store[v.id]
-IsPrim(v) == v.t \in {"i", "b", "u"}
 
 StaticBuiltin(name, vs, st) ==
   CASE name = "Process.println" -> Res(UnitV, [st EXCEPT !.out = Append(@, vs[1].v)])
@@ -240,8 +237,6 @@ EvalList(ev, es, env, st) ==
                    IF acc.st.s.k # "ok" THEN acc
                    ELSE LET r == EV(ev, e, env, acc.st) IN [vs |-> Append(acc.vs, r.v), st |-> r.st],
                  [vs |-> <<>>, st |-> st], es)
-
-ClassOf(st, m, c) == st.p[m][c]
 
 \* the body of member n of class m.c with `this` (if a method) and the arguments bound
 Invoke(ev, m, c, n, this, vs, st, depth) ==
